@@ -32,6 +32,17 @@ CHECKS = {
              "copy must leave the original untouched and vice versa.",
         note="exceptions raised by the calls are not judged here. " + TRUST,
         design="2/C09"),
+    "C11": dict(
+        category="exploration", engine="E1",
+        technique="exhaustive enumeration of queries (cost <= k) x ALL small databases; differential oracle against SQLite and DuckDB",
+        text="Every query of the executor fragment with at most k constructs (k=2 quick: 965 queries, k=3 thorough) is planned once and "
+             "executed by the Python executor on every database with <= 2 rows per mentioned table over {NULL,1,2} (55 per table, 3025 "
+             "for two tables: empty tables, all-NULL groups, duplicates and unmatched rows on either side all occur) plus a rich "
+             "instance; column names, row multiset and the order of ORDER BY keys must equal SQLite's (every case) and DuckDB's "
+             "(tie-breaker / SQLite-rejected constructs), or the executor raises ExecuteError.",
+        note="a disagreement counts only when the two engines agree with each other or only one accepts the query. " + TRUST + 
+             "; SQLite 3.40.1, DuckDB 1.5.5",
+        design="2/C11"),
     "C12": dict(
         category="model_checking", engine="E2",
         technique="closure graph: every serde/copy transition (and 2-compositions) from every enumerated tree state must return to an equal state",
